@@ -43,7 +43,8 @@ def make_pair(rng, k):
     satm, tatm = k % 3, (k // 3) % 3
     conv_s = rng.randint(0, 2)
     conv_t = conv_s if rng.random() < 0.6 else rng.randint(0, 2)
-    kind = rng.choice(['coarse-fine', 'fine-coarse', 'refined', 'layer-refined', 'shifted', 'resurfaced', 'same', 'g7'])
+    kind = rng.choice(['coarse-fine', 'fine-coarse', 'refined', 'layer-refined', 'shifted', 'resurfaced', 'same', 'g7',
+                       'source-layer-refined', 'source-refined'])
     if kind == 'g7' and (k % 5):
         kind = 'coarse-fine'
     desc = {'kind': kind, 'satm': satm, 'tatm': tatm, 'conv_s': conv_s, 'conv_t': conv_t}
@@ -68,6 +69,31 @@ def make_pair(rng, k):
     dxs, dys, dzs = split(Lx, nxs), split(Ly, nys), split(depth, nzs)
     S = mg.mulgrid().rectangular(dxs, dys, dzs, convention=conv_s, atmos_type=satm, origin=org)
     desc.update({'dxs': dxs, 'dys': dys, 'dzs': dzs, 'origin': org})
+    if kind in ('source-layer-refined', 'source-refined'):
+        # the SOURCE is a derived geometry: surfaces first, then the refinement (whatever the refinement
+        # leaves stale in the source is then used by the mapping)
+        if S.num_layers > 2:
+            desc['surf_s'] = geos.set_surfaces(S, rng, rng.choice(['inside', 'boundary', 'mixed']), frac=0.7)
+        if kind == 'source-layer-refined':
+            lays = rng.sample(S.layerlist[1:], rng.randint(1, S.num_layers - 1))
+            if S.convention == 0 and S.num_layers + len(lays) * 2 > 90:
+                lays = lays[:1]
+            S.refine_layers(lays, factor=rng.randint(2, 3))
+            desc['source_layers_refined'] = [l.name for l in lays]
+        elif conv_s != 1:
+            cols = rng.sample(S.columnlist, rng.randint(1, S.num_columns))
+            S.refine(cols)
+            desc['source_refined'] = [c.name for c in cols]
+        nxt, nyt, nzt = rng.randint(1, 6), rng.randint(1, 5), rng.randint(2, 9)
+        if conv_t == 1:
+            while (nxt + 1) * (nyt + 1) > 99:
+                nxt -= 1
+        dxt, dyt, dzt = split(Lx, nxt), split(Ly, nyt), split(depth, nzt)
+        T = mg.mulgrid().rectangular(dxt, dyt, dzt, convention=conv_t, atmos_type=tatm, origin=list(org))
+        desc.update({'dxt': dxt, 'dyt': dyt, 'dzt': dzt, 'origin_t': list(org)})
+        if T.num_layers > 2 and rng.random() < 0.3:
+            desc['surf_t'] = geos.set_surfaces(T, rng, rng.choice(['inside', 'mixed']), frac=0.5)
+        return S, T, desc
     if kind in ('coarse-fine', 'fine-coarse', 'shifted', 'resurfaced', 'same'):
         if kind == 'same':
             dxt, dyt, dzt = dxs, dys, dzs
